@@ -519,6 +519,13 @@ def declare_init(reg):
                            ("self.deps.append(d)", "off.append(len(self.deps)); ri.append(i_1); rpos.append(len(ri) - 1); apos.append(0 - 1)", "after")],
                  loops={1: INV}, raises={},
                  ensures=["seq_eq(requires, %s)" % R] + [t.replace("i_1", "len(requires)") for t in INV[1:]])
+    # the lists the classification window extends start EMPTY (the window itself is verified from arbitrary entry values D0 / R0 / A0)
+    reg.contract(M, "ComponentType.__init__", window="reset",
+                 params=collections.OrderedDict(self=Ref("Delegate"), deps=List(Dep), kwargs=Map(STR, PY)),
+                 from_stmt="self.requires = []", to_stmt="self.type = self.__class__",
+                 modifies=["Delegate.requires", "Delegate.at_least_one", "Delegate.deps"], raises={},
+                 ensures=["len(self.requires) == 0 and len(self.at_least_one) == 0 and len(self.deps) == 0",
+                          "forall(o, Ref_Delegate, implies(o != self, o.requires == old(o.requires) and o.at_least_one == old(o.at_least_one) and o.deps == old(o.deps)))"])
     reg.contract(M, "ComponentType.__init__", window="dependencies",
                  params=collections.OrderedDict(self=Ref("Delegate"), deps=List(Dep), kwargs=Map(STR, PY)),
                  from_stmt="self.deps.extend(self.optional)", to_stmt="self.metadata = {}",
